@@ -28,6 +28,12 @@ def nasty_docs(rng):
            b"-9223372036854775809", b"99999999999999999999999999999999", b"1e400", b"1e-400", b"0." + b"0" * 40 + b"1", b"1" * 18 + b"." + b"9" * 30,
            b"\"\"\"\n", b"\"\"\"\n a", b"\"\"\"\n a\n", b"\"\"\"\n  \\\"\"\"", b"#_", b"#_ ", b"^", b"^:a", b"#:", b"#:a", b"#:a{", b"{", b"#{", b"(", b"[",
            b"\"", b"\"\\", b"\"abc", b";", b"; x", b"#t", b"#t ", b"#inst \"x", b"a/", b"/a", b"a/b/c", b":", b"::", b":a/", b"[" * 120, b"#_" * 60 + b"1"]
+    # tokens longer than any internal fixed-size buffer (512 / 4096 bytes), of every class
+    for n in (500, 511, 512, 513, 600, 4000, 4097):
+        out += [b"1e" + b"9" * n, b"1e-" + b"9" * n, b"1." + b"7" * n, b"1." + b"7" * n + b"e5", b"3" * n, b"3" * n + b"N", b"3" * n + b".5M", b"-" + b"0." + b"0" * n + b"1",
+                b"1" + b"0" * n + b"e-" + str(n).encode(), b"\"" + b"s" * n + b"\\n\"", b"k" * n, b":" + b"k" * n, b"n" * n + b"/" + b"m" * n, b"#" + b"t" * n + b" 1",
+                b";" + b"c" * n + b"\n1", b"\\" + b"x" * n, b"[" + b" " * n + b"]", b"\"\"\"\n" + b" " * n + b"x\n" + b"y" * n + b"\"\"\"",
+                b"0x" + b"F" * n, b"36r" + b"Z" * n, b"1" * n + b"/" + b"3" * n, b"1_" * n + b"1", b"1e" + b"9" * n + b"M"]
     for n in (15, 16, 17, 31, 32, 33, 47, 48, 49, 63, 64, 65):
         out += [b"a" * n, b"\"" + b"s" * n, b"\"" + b"s" * n + b"\"", b" " * n, b" " * n + b"1", b";" + b"c" * n, b"1" * n, b"\"" + b"x" * (n - 1) + b"\\",
                 b"\"\"\"\n" + b" " * n + b"x", b"\"\"\"\n" + b"y" * n + b"\"\"\"", b"[" + b"1 " * n, b"\\" + b"a" * n, b":" + b"k" * n + b"/" + b"n" * n]
